@@ -54,3 +54,11 @@ CHECKS["C14"] = dict(technique="Coq proof (invariant over all schedules) + diffe
     design_ref="DESIGN.md 5 C14")
 CHECKS["C05"]["text"] += " Asynchronous nodes: X_balance (count = holders at every quiescent point of every schedule) for buffer, delay, latest, rate_limit, timed_window, partition(timeout), map_async, zip (Props/C05A.v)."
 CHECKS["C05"]["note"] += " Known finding: latest keeps its slot referenced after delivery (required by test_latest_ref_counts)."
+CHECKS["C18"] = dict(technique="Coq proof (invariant over all start/stop/ack/advance histories) + differential correspondence on the stepped virtual loop (exhaustive short histories + random) + lifecycle oracle",
+    text="one_loop (at most one polling loop alive), no_new_cycle_after_stop (once stopped, no action other than start delivers anything), start/stop idempotence, from_iterable_exact / _backpressure / _complete (exactly the items, in order, one outstanding at a time), periodic_values and periodic_spacing (no poll duplicated or closer than the interval, also across restarts); one_loop_refuted and periodic_spacing_asfound_refuted for the code as found (repaired by a fix: commit).",
+    note="Trusted: Coq kernel + vm_compute; hand model Ext/SourceLife.v of Source.start/stop/run, from_periodic._run and from_iterable.run (one model step = between quiescent points of the loop); tied to /repo by running the real sources on harness/vloop.py for every start/stop/ack/advance word of length 5 (7 thorough) plus random histories. Not modelled: the Kafka/TCP/HTTP/websocket sources' own polling loops (FromKafkaBatched is under C09), start()/stop() called from another thread.",
+    design_ref="DESIGN.md 5 C18")
+CHECKS["C15"] = dict(technique="Coq model with links stored at both ends + garbage-collection reachability; differential correspondence on random edit/emit histories; link/delivery oracle (theorems: see note)",
+    text="Executable model of connect / disconnect / destroy / reference drop with CPython's collection rule (upstream references strong, downstream weak), zip and combine_latest overrides, compared with the real objects' upstreams/downstreams/aliveness and deliveries after every operation; oracle checks mutual consistency of links and delivery exactly along current edges.",
+    note="Trusted: Coq kernel + vm_compute; model Sync/Topology.v (pipe/sink/zip/combine_latest; union and map behave as pipe), harness/topofam.py. PARTIAL: the invariant theorems (links_consistent, delivery_along_edges, combine_as_fresh) are being added; until then the claim rests on the model-vs-code correspondence and the oracle.",
+    design_ref="DESIGN.md 5 C15")
